@@ -2,6 +2,8 @@ import HpxVerif.Lemmas.CoverLemmas
 import HpxVerif.Lemmas.ConeReal
 import HpxVerif.Props.C16
 
+set_option autoImplicit false   -- an unknown identifier in a statement is an error, never a new variable
+
 /-!
 # C05 — cone coverage never misses a cell that the cone touches
 
